@@ -118,7 +118,10 @@ def _wd_note(api, case):
     import json
     import mmap
     import os
-    if os.environ.get("VF_NO_WATCHDOG"):
+    if os.environ.get("VF_NO_WATCHDOG") or not _WD.get("enabled"):
+        # only task worker processes arm the watchdog.  The main process must never arm it before it forks:
+        # a forked child inherits faulthandler's "watchdog running" lock without the thread and would dead-lock
+        # in its own dump_traceback_later() call.
         return
     pid = os.getpid()
     if _WD["pid"] != pid:
@@ -587,10 +590,12 @@ def _finishing(fn):
 
     @functools.wraps(fn)
     def w(*a, **k):
+        _WD["enabled"] = True
         try:
             return fn(*a, **k)
         finally:
             _wd_done()
+            _WD["enabled"] = False
     return w
 
 
